@@ -103,6 +103,8 @@ pub fn compute_root_from_queries(
 }
 
 fn hash_friendly_unfriendly(x: Felt, y: Felt, is_verifier_friendly: bool) -> Felt {
+    #[cfg(swiftness_verif)]
+    swiftness_transcript::verif::tick("merkle.hash", 1);
     if is_verifier_friendly {
         poseidon_hash(x, y)
     } else {
